@@ -245,6 +245,9 @@ class TileManager(object):
             stale = int(tile.timestamp) <= max_mtime
             if stale:
                 cached = False
+                # the metadata of the stale version does not describe the tile that replaces it
+                tile.timestamp = None
+                tile.size = None
         return cached
 
     def is_stale(self, tile, dimensions=None):
